@@ -331,12 +331,18 @@ def _associate(c: Contract, mod, eq):
         return "result is an indexed family (one member of a sum); which member is not named by the decorator"
     else:
         free = plain_free()
-        if len(free) == 1:
-            res, rhow = free[0], "remaining-symbol"
+        named = vars(mod).get(c.fname[len("calculate_"):])
+        if len(free) == 1 and named is free[0]:
+            # the only law symbol no parameter stands for, AND the function is called calculate_<that symbol's name>
+            res, rhow = free[0], "remaining-symbol+function-name"
             if c.out_kind == "dim":
                 d = getattr(res, "dimension", None)
                 if d is None or not _dims_equiv(d, c.out_spec):
                     return "result: the only unassociated law symbol does not have the dimension named by validate_output"
+        elif len(free) == 1:
+            return ("result: validate_output names no law symbol; one law symbol is left over but the function is not "
+                    f"named after it (calculate_<{'|'.join(k for k, v in vars(mod).items() if v is free[0]) or free[0]}> "
+                    "expected): association would be a guess")
         else:
             return ("result: validate_output names no law symbol and the equation has "
                     f"{len(free)} unassociated symbols")
@@ -555,6 +561,20 @@ def numeric_constants(expr):
     return expr.xreplace(rep) if rep else expr
 
 
+def exactify(expr):
+    """Floats read as the exact binary rationals they are (numeric side: lets evalf reduce huge arguments exactly)."""
+    expr = sp.sympify(expr)
+    fl = {f: sp.Rational(f) for f in expr.atoms(sp.Float) if f.is_finite}
+    return expr.xreplace(fl) if fl else expr
+
+
+def exact_constants(expr):
+    from sympy.physics.units import Quantity as SymQuantity
+    expr = sp.sympify(expr)
+    rep = {q: exactify(q.scale_factor) for q in expr.atoms(SymQuantity)}
+    return exactify(expr.xreplace(rep) if rep else expr)
+
+
 def instantiate_law(eq, n_by_base: dict):
     """For laws with IndexedSum/IndexedProduct: fix the index range 1..n and expand."""
     if not n_by_base:
@@ -755,7 +775,26 @@ def _entailed_signs(hyps, tr: Tr, symbols):
     return out
 
 
+MAX_ROOT_DEGREE = 12
+
+
+def _high_degree(e) -> bool:
+    for p in sp.sympify(e).atoms(sp.Pow):
+        x = p.exp
+        if x.is_Float and x != int(x):
+            x = sp.Rational(repr(float(x)))
+        if x.is_Rational and not x.is_Integer and (x.q > MAX_ROOT_DEGREE or abs(x.p) > 64):
+            return True
+        if x.is_Integer and abs(int(x)) > 64:
+            return True
+    return False
+
+
 def _z3_problem(alts, assume, domain_exprs, extra_domain=()):
+    for alt in alts:
+        for g in alt:
+            if _high_degree(g):
+                raise Unsupported(f"power with a rational exponent of denominator > {MAX_ROOT_DEGREE} (machine-float exponent)")
     tr = Tr()
     zalts = [z3.And([tr.tr(g) == 0 for g in alt]) for alt in alts]
     goal = zalts[0] if len(zalts) == 1 else z3.Or(zalts)
@@ -819,8 +858,11 @@ def prove_zero(name, goals, *, assume=(), domain_exprs=(), signature="", abs_alt
         return (Ob(name, UNKNOWN, "z3", (time.time() - t0) * 1000, f"translation unsupported: {u}", signature), None, None,
                 used_all)
     used_all += used
-    ob, model = smt_prove(name, hyps, goal, timeout_s=timeout_s, signature=signature)
-    ob.ms += ms_nf
+    r, be, ms_c, _ = check_sat(hyps, timeout_s=5.0, use_cvc5=False)
+    if r == "unsat":
+        return Ob(name, FAULT, be, ms_nf + ms_c, "vacuous: hypotheses unsatisfiable", signature), None, tr, used_all
+    ob, model = smt_prove(name, hyps, goal, timeout_s=timeout_s, signature=signature, cover=False)
+    ob.ms += ms_nf + ms_c
     if ob.verdict in (PROVED, FAULT):
         return ob, model, tr, used_all
     # ---- sign-normalised rebuild
@@ -856,7 +898,7 @@ def prove_zero(name, goals, *, assume=(), domain_exprs=(), signature="", abs_alt
                 tr2, hyps2, goal2, used2 = _z3_problem(alts2, assume2, dom2)
                 # the entailed signs were consequences of the original hypotheses: keep those as well is unnecessary,
                 # the rebuilt problem is the same formula under a renaming of symbols
-                ob2, model2 = smt_prove(name, hyps2, goal2, timeout_s=timeout_s, signature=signature)
+                ob2, model2 = smt_prove(name, hyps2, goal2, timeout_s=timeout_s, signature=signature, cover=False)
                 ob2.ms += ob.ms
                 if ob2.verdict == PROVED:
                     ob2.detail = note
@@ -942,7 +984,8 @@ def numeric_residual(eq, pairs, n_by_base=None, op=""):
         return ok, lv, rv, f"lhs={lv!r} rhs={rv!r} |lhs-rhs|/scale={abs(lv - rv) / scale:.3e}"
     # abs / ceiling: result == op(solution of the law for the result symbol)
     s = sp.Dummy("sol")
-    resid = numeric_constants(law_residual(eq, pairs[:-1] + [(r_atom, s)], n_by_base))
+    resid = numeric_constants(law_residual(eq, [(a, sp.N(v)) if not isinstance(v, list) else (a, [sp.N(x) for x in v])
+                                                for a, v in pairs[:-1]] + [(r_atom, s)], n_by_base))
     sols = sp.solve(resid, s)
     rv = numeric_value(r_val)
     vals = []
@@ -964,9 +1007,11 @@ def numeric_residual(eq, pairs, n_by_base=None, op=""):
 
 
 def _nval(x):
-    x = numeric_constants(sp.sympify(x))
+    x = exact_constants(sp.sympify(x))
     if x.free_symbols:
         raise Unsupported(f"unbound symbols {sorted(map(str, x.free_symbols))} after substitution")
+    if x.has(sp.I) and x.has(sp.exp):
+        x = x.rewrite(sp.cos)  # evalf of exp(I*huge) loses digits, cos/sin reduce the argument exactly
     v = complex(sp.N(x, 30))
     if math.isnan(v.real) or math.isnan(v.imag):
         raise Unsupported("nan")
@@ -974,7 +1019,7 @@ def _nval(x):
 
 
 def _term_scale(x):
-    x = numeric_constants(sp.sympify(x))
+    x = exact_constants(sp.sympify(x))
     best = 0.0
     for t in sp.Add.make_args(x):
         try:
@@ -1041,7 +1086,7 @@ def _numeric_pairs(c: Contract, assoc, kwargs, result):
     pairs, n_by_base = [], {}
 
     def val(x):
-        return sp.sympify(x.scale_factor) if isinstance(x, SymQuantity) else sp.sympify(x)
+        return exactify(x.scale_factor) if isinstance(x, SymQuantity) else exactify(x)
 
     for p in c.params:
         a = kwargs[p.name]
@@ -1076,6 +1121,7 @@ class FnResult:
     obs: list = field(default_factory=list)
     bounded: Optional[dict] = None
     audit: Optional[dict] = None
+    assoc: str = ""
     rebound: list = field(default_factory=list)
     axioms: list = field(default_factory=list)
     notes: list = field(default_factory=list)
@@ -1091,6 +1137,8 @@ def _is_seq_param(p: Param) -> bool:
 SYNTACTIC_BOUNDED_RULES = [
     ("imaginary", "law or returned expression contains the imaginary unit (complex impedance); I is never a real variable"),
     ("matrix", "law contains matrices"),
+    ("float-exponent", "law contains a power with a machine-float / high-degree rational exponent (root of degree > 12): "
+                       "equality only to numerical precision"),
 ]
 
 
@@ -1099,6 +1147,8 @@ def syntactic_demotion(c: Contract, eq) -> str:
         return SYNTACTIC_BOUNDED_RULES[0][1]
     if eq.atoms(sp.MatrixBase) or eq.has(sp.MatMul) or eq.has(sp.MatAdd):
         return SYNTACTIC_BOUNDED_RULES[1][1]
+    if _high_degree(reeval(eq.lhs - eq.rhs)):
+        return SYNTACTIC_BOUNDED_RULES[2][1]
     for p in c.params:
         s = _ann_str(p)
         if "Callable" in s or "Vector" in s or "Matrix" in s:
@@ -1244,7 +1294,7 @@ def _discharge_path(c, law_attr, eq, pairs, n_by_base, val, cond, pname, args, r
             return ob0
         # ---- D1: arguments for which the law has a real solution at all (some real r0 solves it)
         ob1, m1, tr1 = ob0, m0, tr0
-        if H != 0 and r0 in sp.sympify(H).free_symbols:
+        if ob0.verdict == REFUTED and H != 0 and r0 in sp.sympify(H).free_symbols:
             ob1, m1, tr1, used = prove_zero(pname, goals, assume=pc + [sp.Eq(H, 0, evaluate=False)],
                                             domain_exprs=[valc, H], signature=sig, abs_alt=abs_alt)
             _merge(axioms_all, used)
@@ -1561,6 +1611,8 @@ def _process_function(mod, fname, fr: FnResult, rng, npoints, demoted, generate,
         fr.klass, fr.reason = "out_of_reach", c.reason
         return
     entry = demoted.get(fr.qual)
+    hs = set(c.laws[0][2]["hows"].values()) | {c.laws[0][2]["result_how"]}
+    fr.assoc = "decorator" if hs == {"decorator"} else "+".join(sorted(hs))
     sym_done = False
     reasons = []
     for law_attr, eq, assoc in c.laws:
@@ -1611,7 +1663,9 @@ def _process_function(mod, fname, fr: FnResult, rng, npoints, demoted, generate,
         fr.reason = " || ".join(dict.fromkeys(reasons))
         if fr.bounded["accepted"] == 0:
             fr.klass = "out_of_reach"
-            fr.reason += " ; bounded stand-in found no evaluable accepted point: " + "; ".join(fr.bounded["errors"][:2])
+            fr.reason += (" ; bounded stand-in found no evaluable accepted point"
+                          f" ({fr.bounded.get('ill_conditioned', 0)} ill-conditioned points skipped, "
+                          f"{fr.bounded.get('refused', 0)} refused): " + "; ".join(fr.bounded["errors"][:2]))
         else:
             fr.klass = "bounded"
         if sym_done and any(o.verdict == PROVED for o in fr.obs):
